@@ -751,7 +751,7 @@ func (fc *FnCtx) assignedIn(nodes ...ast.Node) []modTarget {
 // mutatesReceiver: library models whose effect is on the receiver object itself
 // (in-memory buffers); all other modelled methods act on ghost state only.
 func mutatesReceiver(full string) bool {
-	return strings.HasPrefix(full, "(*strings.Builder).") || strings.HasPrefix(full, "(*bytes.Buffer).") || full == "(*github.com/a-h/parse.Input).Take"
+	return strings.HasPrefix(full, "(*strings.Builder).") || strings.HasPrefix(full, "(*bytes.Buffer).") || full == "(*github.com/a-h/parse.Input).Take" || full == "(*github.com/a-h/parse.Input).Seek"
 }
 
 func modRootField(m ast.Expr) (string, string) {
